@@ -262,18 +262,18 @@ def rule_undiscounted(ctx: Ctx, typer: Typer):
     st = [n for n in fn_body_nodes(f) if isinstance(n, ast.Assign) and isinstance(n.targets[0], ast.Subscript) and svn is not None
           and ast.unparse(n.targets[0].value) == svn and "inf" in ast.unparse(n.value)]
     if st:
-        mask = ast.unparse(st[0].targets[0].slice)
-        md = S.find("mask = accessible[:, negrec].any(-1)", {**{k: v for k, v in env.items() if k == "accessible" and v}, "mask": mask})
-        ctx.check(bool(md), "REC-3", f, st[0], "-inf exactly where a negative recurrent class is accessible", "",
+        env0 = {k: v for k, v in env.items() if k in ("recurrent", "absorbing", "rewards", "accessible") and v}
+        env0["sv"] = svn
+        have = all(k in env0 for k in ("recurrent", "absorbing", "rewards", "accessible"))
+        # each definition may be a named temporary or written in place (Snips binds an unnamed occurrence virtually)
+        r3 = S.solve(["negrec = recurrent & (rewards < 0)", "mask = accessible[:, negrec].any(-1)", "sv[mask] = E_val"], env0) if have else None
+        ctx.check(r3 is not None, "REC-3", f, st[0], "-inf exactly where a negative recurrent class is accessible", "",
                   "-inf is not assigned under the mask `accessible[:, <negative recurrent states>].any(-1)`: it must mark states from which a negative recurrent state is accessible")
         ok = ast.unparse(st[0].value) == "float('-inf')"
         ctx.check(ok, "REC-3", f, st[0], "the assigned value is -inf", "", f"assigned value is {ast.unparse(st[0].value)}")
-        e2 = {k: v for k, v in env.items() if k in ("recurrent", "rewards") and v}
-        if md:
-            e2["negrec"] = md[0][1]["negrec"]
-        nr = S.find("negrec = recurrent & (rewards < 0)", e2) if "negrec" in e2 and "recurrent" in e2 else []
-        ctx.check(bool(nr), "REC-3", f, nr[0][0] if nr else f.node, "negative recurrent = recurrent and paying negative reward", "", "negative recurrent states are not recurrent & (state_rewards < 0)")
-        rs = S.find("recurrent = ~transient & ~absorbing", {k: v for k, v in env.items() if k in ("recurrent", "absorbing") and v}) if env.get("recurrent") and env.get("absorbing") else []
+        r2 = S.solve(["negrec = recurrent & (rewards < 0)", "ANY[:, negrec]"], env0) if have else None
+        ctx.check(r2 is not None, "REC-3", f, r2[1][0] if r2 else f.node, "negative recurrent = recurrent and paying negative reward", "", "negative recurrent states are not recurrent & (state_rewards < 0)")
+        rs = S.find("recurrent = ~transient & ~absorbing", {k: v for k, v in env0.items() if k in ("recurrent", "absorbing")}) if have else []
         ctx.check(bool(rs), "REC-3", f, rs[0][0] if rs else f.node, "recurrent = not transient and not absorbing", "", "recurrent states are not (~transient & ~absorbing)")
     else:
         ctx.violation("REC-3", f, f.node, "-inf for states that reach a negative recurrent class", "no -inf assignment to the state values")
